@@ -44,6 +44,12 @@ def run(tier, replay=None):
         meta = {k: c[k] for k in ("badline", "fault", "ending", "nl")}
         if i % 5 == 0:   # every fifth case goes through an include
             base = '.include "inc.s"\nmv t3, a0\n'
+            if i % 10 == 0 and c["badline"] == 0 and c["fault"] != "none":
+                # the base file begins with the same malformed line: the same error at the same position of two files
+                base = c["text"].split("\n")[0].rstrip("\r") + "\n.include \"zinc.s\"\nmv t3, a0\n"
+                meta["gfile"] = 2
+                items.append((meta, {"main.s": base, "zinc.s": c["text"]}, {"main.s": base, "zinc.s": c["twin"]}))
+                continue
             meta["gfile"] = 2
             items.append((meta, {"main.s": base, "inc.s": c["text"]}, {"main.s": base, "inc.s": c["twin"]}))
         else:
@@ -70,7 +76,9 @@ def run(tier, replay=None):
         items = [(w["meta"], w["files_full"], w["files_twin"])]
     hc = []
     for i, (m, ff, ft) in enumerate(items):
-        hc.append({"id": 2 * i + 1, "mode": "observe", "files": ff, "base": "main.s", "want": ["files", "nodes", "errors"]})
+        m["items"] = len(ff) > 1          # multi-file cases: also what RVParser::run reports
+        hc.append({"id": 2 * i + 1, "mode": "observe", "files": ff, "base": "main.s",
+                   "want": ["files", "nodes", "errors"] + (["items"] if m["items"] else [])})
         hc.append({"id": 2 * i + 2, "mode": "observe", "files": ft, "base": "main.s", "want": ["nodes", "errors"]})
     tp, evs = run_harness(rvh, hc, wd, "lines")
     merged = [{"id": i + 1, "case": items[i][0], "full": evs[2 * i], "twin": evs[2 * i + 1]} for i in range(len(items))]
@@ -79,6 +87,7 @@ def run(tier, replay=None):
             m[side].setdefault("files", [])
             m[side].setdefault("nodes", [])
             m[side].setdefault("errors", [])
+            m[side].setdefault("items", [])
     # as-built binding: the statement loop of the parser, token by token, on every full file of this run
     pc = [{"id": i + 1, "mode": "parse", "files": ff, "base": "main.s"} for i, (m, ff, ft) in enumerate(items)]
     tp2, pevs = run_harness_par(rvh, pc, wd, "parse", shards=6)
